@@ -30,7 +30,10 @@ reserved_entrypoints = {
 def has_parameters(content: Dict[str, Any]) -> bool:
     if not content.get('parameters'):
         return False
-    return not (content['parameters']['entrypoint'] == 'default' and content['parameters']['value'] == {'prim': 'Unit'})
+    value = content['parameters']['value']
+    # NOTE: `{'prim': 'Unit', 'args': []}` / `'annots': []` spell the same node as bare `Unit`; an annotated `Unit %x` is a different one
+    is_unit = isinstance(value, dict) and value.get('prim') == 'Unit' and not value.get('args') and not value.get('annots')
+    return not (content['parameters']['entrypoint'] == 'default' and is_unit)
 
 
 def forge_entrypoint(entrypoint) -> bytes:
